@@ -66,7 +66,39 @@ def defs(ind: str, doc: Optional[str], name: str = 'X') -> Dict[str, str]:
         'lambda': f'{ind}{X} = lambda a: a\n',
         'async_static': f'{ind}@staticmethod\n{ind}async def {X}(a):\n{body}{P}',
         'class_kw': f'{ind}class {X}(object, metaclass=type):\n{body}{P}',
+        **stacks(ind, body, X),
+        # a function defined OUTSIDE the class (module level, same name) wrapped in the class body: the class binds the name
+        'outer-static': (f'def {X}(a):\n    "outer {X}"\n    pass\n', f'{ind}{X} = staticmethod({X})\n'),
+        'outer-clsm': (f'def {X}(a):\n    "outer {X}"\n    pass\n', f'{ind}{X} = classmethod({X})\n'),
+        'outer-static-other-name': (f'def O0{X}(a):\n    "outer {X}"\n    pass\n', f'{ind}{X} = staticmethod(O0{X})\n'),
     }
+
+
+OTHERS = {
+    'name': ('{ind}def dn0{X}(f): return f\n', '@dn0{X}'),
+    'call': ('{ind}def dc0{X}(n): return (lambda f: f)\n', '@dc0{X}(1)'),
+    'subscript': ("{ind}REG0{X} = {{'k': (lambda f: f)}}\n", "@REG0{X}['k']"),
+    'callattr': ('{ind}class MK0{X}:\n{ind}    d = staticmethod(lambda f: f)\n', '@MK0{X}().d'),
+    'boolop': ('{ind}def db0{X}(f): return f\n', '@(None or db0{X})'),
+    'attr': ('{ind}class NS0{X}:\n{ind}    d = staticmethod(lambda f: f)\n', '@NS0{X}.d'),
+}
+BUILTIN_DECOS = {'staticmethod': 'a', 'classmethod': 'cls', 'property': 'self', 'none': 'self'}
+
+
+def stacks(ind: str, body: str, X: str) -> Dict[str, str]:
+    """every identity decorator form stacked above / below each kind-changing built-in decorator"""
+    out = {}
+    P = ind + '    pass\n'
+    for on, (helper, deco) in OTHERS.items():
+        for bn, arg in BUILTIN_DECOS.items():
+            for order in ('above', 'below'):
+                if bn == 'none' and order == 'below':
+                    continue
+                lines = [ind + deco.format(X=X) + '\n'] + ([f'{ind}@{bn}\n'] if bn != 'none' else [])
+                if order == 'below':
+                    lines.reverse()
+                out[f'stack:{on}:{bn}:{order}'] = helper.format(ind=ind, X=X) + ''.join(lines) + f'{ind}def {X}({arg}):\n{body}{P}'
+    return out
 
 
 PLACE: Dict[str, Tuple[str, ...]] = {
@@ -89,7 +121,7 @@ PLACE: Dict[str, Tuple[str, ...]] = {
 }
 NEGATIVE = ('func', 'main', 'main-reversed')
 UNJUDGED = ('else-of-false', 'while-once')
-CLASS_ONLY = ('static', 'clsm', 'prop', 'oldstatic', 'oldclsm', 'async_static')
+CLASS_ONLY = ('static', 'clsm', 'prop', 'oldstatic', 'oldclsm', 'async_static', 'outer-static', 'outer-clsm', 'outer-static-other-name')
 
 LITERALS = ['1', '-1', '1.5', '1j', "'s'", "b'b'", 'True', 'None', '[]', '[1, 2]', "['a', 'b']", "[1, 'a']", '[[1], [2]]', '()', '(1, 2)', "(1, 'a')", '(1,)',
             '{}', "{'a': 1}", "{'a': 1, 'b': 's'}", '{1: 2, 3: 4}', '{1, 2}', "{'a'}", '[1.0, 2.0]', '[True, False]', '[None]', '[b"x"]', '{"a": [1]}',
@@ -138,6 +170,8 @@ def compare_name(pl: str, pns: Any, dns: Any, name: str, label: str, full: str, 
     if dobj is None:
         res['violations'].append(core.violation(f'missing/{pl}/{label}{extra_sig}', f'CPython binds {name} ({pk[0]}) but pydoctor documents nothing:\n{full}', case))
         return
+    if label.startswith('presence:'):
+        return      # a wrapped outer function is alias-like: only that the class binds and documents the name is judged
     kind, pdoc, isasync = pk
     dk = dobj.kind.name if dobj.kind else None
     if kind == 'ATTR':
@@ -205,17 +239,22 @@ def singles() -> List[Tuple[str, str, List[Tuple[str, str, Optional[str]]], str]
         ind = spec[1]
         for dn, doc in DOCS.items():
             for kn, src in defs(ind, doc).items():
-                if kn in CLASS_ONLY and not pl.startswith(('class', 'nestedclass')):
+                if (kn in CLASS_ONLY or (kn.startswith('stack:') and ':none:' not in kn)) and not pl.startswith(('class', 'nestedclass')):
                     continue
+                if kn.startswith(('stack:', 'outer-')) and dn not in ('none', 'one', 'below'):
+                    continue
+                prelude = ''
+                if isinstance(src, tuple):
+                    prelude, src = src
                 if dn != 'none' and kn in ('var_list', 'var_ann', 'var_chain', 'var_tuple', 'lambda'):
                     continue
-                full = wrap(pl, src)
+                full = prelude + wrap(pl, src)
                 try:
                     compile(full, 'm', 'exec')
                 except SyntaxError:
                     continue
                 docexp = eval(doc.replace('{I}', ind)) if (doc and kn == 'var_int') else None
-                names = [('X', f'{kn}:{dn}' if kn in ('def', 'class', 'var_int', 'prop') else kn, docexp)]
+                names = [('X', f'{kn}:{dn}' if kn in ('def', 'class', 'var_int', 'prop') else (('presence:' + kn) if kn.startswith('outer-') else kn), docexp)]
                 if kn == 'var_chain':
                     names.append(('Z0X', kn, None))
                 if kn == 'var_tuple':
